@@ -29,8 +29,10 @@ theorem agrees_iff (m : MState) (t : Truth) :
 theorem proj_handled (d : MSlot) (m : MState) (keys : List Key) : proj (d.handled m keys) = proj d := rfl
 theorem proj_gotChanged (m : MState) (k : Kind) (d : MSlot) : proj (gotChanged m k d) = proj d := rfl
 theorem proj_skippedBy (k : Kind) (d : MSlot) : proj (skippedBy k d) = proj d := rfl
-theorem proj_changeSlot (k : Kind) (b : Bool) (d : MSlot) : proj (changeSlot k b d) = proj d := by
-  simp only [changeSlot]; split <;> split <;> rfl
+theorem proj_changeSlot (k : Kind) (b mx : Bool) (d : MSlot) : proj (changeSlot k b mx d) = proj d := by
+  simp only [changeSlot]
+  generalize (if mx = true then addNew d.rmMixed k else d.rmMixed.filter (· != k)) = rm
+  split <;> split <;> rfl
 theorem proj_present (d : MSlot) (w : What) : proj (d.present w) = proj d := rfl
 theorem proj_fetched (d : MSlot) (key : Key) : proj (d.fetched key) = proj d := rfl
 theorem proj_started (d : MSlot) (key : Key) : proj (d.started key) = proj d := rfl
@@ -144,7 +146,7 @@ theorem agrees_step {m : MState} {t : Truth} (h : Agrees m t) (r : Rec) : Agrees
       · exact ⟨h.cap, rfl, rfl, h.content, h.connected, h.modern, h.listens, h.luris, h.window, h.csubs⟩
       · rw [agrees_iff]
         refine ⟨h.cap, rfl, rfl, h.content, fun i => ?_⟩
-        show proj (changeSlot _ _ (m.slots i)) = _
+        show proj (changeSlot _ _ _ (m.slots i)) = _
         rw [proj_changeSlot]; exact h.proj_eq i
   | cbrun k =>
     have ht : truthStep t ⟨.cbrun k, obs⟩ = t := by cases obs <;> rfl
